@@ -186,7 +186,7 @@ def emit_const(item):
     return spec + exec_
 
 
-def assemble(ex, prelude, fns_spec, loops_spec, stubs):
+def assemble(ex, prelude, fns_spec, loops_spec, stubs, top=None):
     """-> (unit text, linemap [(unit_line, repo_path, repo_line, item name)], info)"""
     used_fn, used_loop, defaulted = set(), set(), []
     chunks = []   # (text, item or None)
@@ -213,6 +213,8 @@ def assemble(ex, prelude, fns_spec, loops_spec, stubs):
     for it in items:
         if it.kind == 'fn' and not it.owner:
             chunks.append((emit_fn(it, fns_spec, loops_spec, used_fn, used_loop, defaulted), it))
+    if top:
+        chunks.append((top.replace('@PARSER_LITERAL@', ex['parser_literal']) + '\n', None))
     chunks.append(('} // verus!\nfn main() {}\n', None))
 
     names = set(it.name for it in items if it.kind == 'fn')
